@@ -129,6 +129,7 @@ pub fn run_case(line: &str) -> String {
         "q" => crate::channel::qscen::run_seq(&w[1..]),
         "qc" => crate::channel::qscen::run_conc(&w[1..]),
         "bs" => crate::ports::output::bscen::run(&w[1..]),
+        "tsc" => crate::tsetscen::run(&w[1..]),
         k => format!("ERR unknown-kind {}", k),
     }
 }
